@@ -195,10 +195,9 @@ Ltac row :=
     | match goal with |- context [match ?x with Ok _ => _ | Err => _ end] => destruct x; simpl end
     | match goal with |- context [match ?x with 0 => _ | S _ => _ end] => destruct x; simpl end ].
 
-Lemma ROW_rm_with clean p : ROW clean -> ROW (rm_with clean p).
+Lemma ROW_rm_body clean p : ROW clean -> ROW (rm_body clean p).
 Proof.
-  intros Hc w0 w Hw Hle0. unfold rm_with.
-  apply RO_step; [discriminate|discriminate|assumption|]. intros r0 w00 Hle.
+  intros Hc w0 w Hw Hle. unfold rm_body.
   apply RO_use; [auto with ro|assumption|]. intros e w1 Hle1. destruct (negb e); [apply RO_ret; assumption|].
   apply RO_use; [auto with ro|assumption|]. intros d w2 Hle2. destruct d as [isdir|]; [|apply RO_ret; assumption].
   apply RO_use; [auto with ro|assumption|]. intros em w3 Hle3. destruct em as [isempty|]; [|apply RO_ret; assumption].
@@ -207,6 +206,13 @@ Proof.
   apply RO_use; [auto with ro|assumption|]. intros em2 w5 Hle5. destruct em2 as [isempty2|]; [|apply RO_ret; assumption].
   destruct (isdir && negb isempty2); [apply RO_ret; assumption|].
   apply ROW_step; [discriminate|assumption|assumption|]. intros r w6 Hle6. destruct r; apply RO_ret; assumption.
+Qed.
+
+Lemma ROW_rm_with clean p : ROW clean -> ROW (rm_with clean p).
+Proof.
+  intros Hc w0 w Hw Hle0. unfold rm_with.
+  apply RO_step; [discriminate|discriminate|assumption|]. intros r0 w00 Hle.
+  destruct r0; try (apply RO_ret; assumption); apply (ROW_rm_body clean p Hc w0 w00 Hw Hle).
 Qed.
 
 Lemma ROW_rm_hb : ROW rm_hb.
